@@ -692,6 +692,8 @@ type sink struct {
 	key     string
 	partial int // connections that ended inside a frame
 	limit   int // >= 0: stop reading (stall) once the first connection has delivered this many frames
+	hold    bool          // with limit: only the first connection stops reading, for good (it is never closed by the sink)
+	done    chan struct{} // closed when the trial is over
 }
 
 // newSink: rcvbuf > 0 fixes SO_RCVBUF of the accepted connections (inherited from the listener; switches receive-buffer
@@ -711,7 +713,7 @@ func newSink(key string, rcvbuf int) *sink {
 	if err != nil {
 		panic(err)
 	}
-	s := &sink{ln: ln, key: key, limit: -1}
+	s := &sink{ln: ln, key: key, limit: -1, done: make(chan struct{})}
 	s.cond = sync.NewCond(&s.mu)
 	go func() {
 		for {
@@ -787,8 +789,13 @@ func (s *sink) serve(id int, c net.Conn) {
 		s.mu.Lock()
 		s.frames = append(s.frames, frameRec{conn: id, payload: body, at: time.Now()})
 		if id == 0 && s.limit >= 0 && len(s.frames) >= s.limit {
-			s.stalled = true
 			s.limit = -1
+			if s.hold {
+				s.mu.Unlock()
+				<-s.done // a stalled peer: alive, not reading, not closing
+				return
+			}
+			s.stalled = true
 		}
 		s.mu.Unlock()
 	}
@@ -832,6 +839,8 @@ type pushRec struct {
 	at   time.Time
 }
 
+const stallWriteTimeout = 3 * time.Second // EgressConfig.WriteTimeout of scenario 6
+
 const dataMagic = 0xEE // first byte of every data packet of the harness; a TL boxed batch starts with 0x39
 
 func runL2(seed uint64, idx int, o *out, tier string) {
@@ -843,7 +852,9 @@ func runL2(seed uint64, idx int, o *out, tier string) {
 	// 5 one batch of large packets blocks in the kernel buffers of an upstream that reads m frames and then resets the
 	//   connection (write fails in the MIDDLE / towards the END of the batch, after part of it was accepted by the kernel).
 	// The scenario rotates with the live-trial index so that every run of >= 128 cases covers all of them several times.
-	scen := []int{0, 4, 1, 5, 2, 4, 0, 3, 4, 1, 5, 2, 0, 4, 5, 1}[(idx/8)%16]
+	// 6 the upstream stops reading WITHOUT closing (stalled): the sender's write deadline (WriteTimeout, 3 s here) must end the
+	//   blocked write so that it reconnects and forwards what it holds.
+	scen := []int{0, 4, 1, 5, 2, 4, 6, 3, 4, 1, 5, 2, 0, 4, 5, 6}[(idx/8)%16]
 	o.Stat(fmt.Sprintf("l2.scenario.%d", scen), 1)
 	cfg := balancer.EgressConfig{HostTag: hostTag, ReconnectDelay: 50 * time.Millisecond, DialTimeout: 5 * time.Second}
 	var e *balancer.Egress
@@ -852,7 +863,7 @@ func runL2(seed uint64, idx int, o *out, tier string) {
 	mkSinks := func() {
 		for i := range sinks {
 			rb := 0
-			if scen == 5 {
+			if scen == 5 || scen == 6 {
 				rb = 4096
 			}
 			sinks[i] = newSink(key, rb)
@@ -865,10 +876,14 @@ func runL2(seed uint64, idx int, o *out, tier string) {
 		for _, s := range sinks {
 			_ = s.ln.Close()
 			s.resetAll()
+			close(s.done)
 		}
 	}()
+	if scen == 6 {
+		cfg.WriteTimeout = stallWriteTimeout
+	}
 	switch scen {
-	case 1, 5:
+	case 1, 5, 6:
 		e = balancer.VerifNewLive(cfg, nil, nil) // no resolved address yet: both senders keep retrying
 	case 3:
 		cfg.Address = sinks[0].addr() + "," + sinks[1].addr()
@@ -900,6 +915,7 @@ func runL2(seed uint64, idx int, o *out, tier string) {
 	}
 	desc := []string{}
 	lastPartial := false
+	var stallStart time.Time
 	switch scen {
 	case 0, 3:
 		nb := r.Range(1, 5)
@@ -981,6 +997,26 @@ func runL2(seed uint64, idx int, o *out, tier string) {
 		time.Sleep(400 * time.Millisecond) // the sender fills the kernel buffers and blocks
 		sinks[0].resetAll()
 		sinks[0].setStalled(false)
+	case 6:
+		// like 5, but the upstream never resets: it reads m frames of the first connection and then just stops reading.
+		// Only the sender's own write deadline can end the blocked write.
+		k := r.Range(c.BufferLen*3/4, c.BufferLen-2)
+		size := r.Range(50000, 60000)
+		m := r.Range(1, 6)
+		desc = append(desc, fmt.Sprintf("unresolved burst=%d x %d bytes ; resolve ; upstream reads %d frames of the first connection, then stops reading without closing ; WriteTimeout=%v", k, size, m, stallWriteTimeout))
+		for j := 0; j < k; j++ {
+			push(size + r.Range(0, 500))
+		}
+		sinks[0].mu.Lock()
+		sinks[0].limit, sinks[0].hold = m, true
+		sinks[0].mu.Unlock()
+		balancer.VerifReplacePools(e, []string{sinks[0].addr(), sinks[1].addr()})
+		stallStart = time.Now()
+		// expected: second connection after WriteTimeout + ReconnectDelay (3.05 s); budget 10x
+		waitRe := stallStart.Add(10 * stallWriteTimeout)
+		for sinks[0].connCount() < 2 && time.Now().Before(waitRe) {
+			time.Sleep(10 * time.Millisecond)
+		}
 	case 2:
 		k := r.Range(thr, 3*thr)
 		desc = append(desc, fmt.Sprintf("burst=%d reset", k))
@@ -1121,12 +1157,18 @@ func runL2(seed uint64, idx int, o *out, tier string) {
 			o.NT("e2e-idle-after-partial-batch")
 		}
 		_ = maxLat
-	case 4, 5:
+	case 4, 5, 6:
 		// exact accounting: nothing was in flight when the write failed (4) / everything the kernel accepted is read (5), so
 		// every accepted packet is received exactly once, in acceptance order, or is the one packet given up by a counted
 		// write error ("not resend for last")
 		lastPush := pushes[len(pushes)-1].at
 		deadline := lastPush.Add(timerBudget + 5*time.Second)
+		if scen == 6 {
+			deadline = time.Now() // the sender never came back within 10x WriteTimeout: nothing more to wait for
+			if sinks[0].connCount() >= 2 {
+				deadline = time.Now().Add(timerBudget + 5*time.Second)
+			}
+		}
 		var data map[uint32]frameRec
 		var st balancer.EgressStats
 		quietSince := time.Now()
@@ -1144,7 +1186,7 @@ func runL2(seed uint64, idx int, o *out, tier string) {
 			if bad || time.Now().After(deadline) {
 				break
 			}
-			if drained && (scen == 5 || uint64(len(data))+st.WriteErrors >= st.ForwardedPackets) && time.Since(quietSince) > 600*time.Millisecond {
+			if drained && (scen == 5 || scen == 6 || uint64(len(data))+st.WriteErrors >= st.ForwardedPackets) && time.Since(quietSince) > 600*time.Millisecond {
 				break
 			}
 			time.Sleep(20 * time.Millisecond)
@@ -1154,7 +1196,12 @@ func runL2(seed uint64, idx int, o *out, tier string) {
 		lost := int64(st.ForwardedPackets) - int64(len(data))
 		if st.ForwardedPackets+st.DroppedPackets != uint64(len(pushes)) || st.DroppedPackets != 0 {
 			o.Viol("e2e-uncounted", "%d packets handed in, forwarded=%d dropped=%d (the buffers never filled)", len(pushes), st.ForwardedPackets, st.DroppedPackets)
-		} else if scen == 5 {
+		} else if scen == 6 && (sinks[0].connCount() < 2 || st.WriteErrors == 0) {
+			// ---- direct oracle: bounded delay under an upstream connection failure (stalled, never reset)
+			b0 := balancer.VerifBuf(e, 0)
+			o.Viol("stalled-upstream-blocks-sender", "the upstream stopped reading the primary sender's connection without closing it; %v later (WriteTimeout is %v) the sender has neither given up the write (write errors: %d) nor reconnected (connections seen by the upstream: %d): %d of %d accepted packets are still held (read batch %d..%d, write buffer %d) and will not be forwarded before the kernel's TCP timeout (scenario 6: %s)",
+				time.Since(stallStart).Round(time.Second), stallWriteTimeout, st.WriteErrors, sinks[0].connCount(), lost, st.ForwardedPackets, b0.Ri, b0.Rm, b0.Wi, strings.Join(desc, " ; "))
+		} else if scen == 5 || scen == 6 {
 			// packets accepted by the kernel but not read before the reset are lost in TCP; their bytes cannot exceed the
 			// sender's send-buffer limit (+ the small fixed receive buffer); each counted write error gives up one more packet
 			var lostBytes int64
@@ -1167,10 +1214,10 @@ func runL2(seed uint64, idx int, o *out, tier string) {
 					}
 				}
 			}
-			o.Stat("l2.scen5.lost-packets", lost)
+			o.Stat(fmt.Sprintf("l2.scen%d.lost-packets", scen), lost)
 			if bound := inflightBound(); bound > 0 && lostBytes > bound+int64(st.WriteErrors)*int64(c.PktBodyMax+c.PktHeadLen) {
-				o.Viol("e2e-lost", "%d accepted packets (%d bytes, first missing seq: %s) never reached the upstream after a connection reset inside a batch; at most %d bytes can have been in flight on the reset connection and %d write errors were counted (scenario 5: %s)",
-					lost, lostBytes, strings.Join(miss, ","), bound, st.WriteErrors, strings.Join(desc, " ; "))
+				o.Viol("e2e-lost", "%d accepted packets (%d bytes, first missing seq: %s) never reached the upstream after a connection failure inside a batch; at most %d bytes can have been in flight on the failed connection and %d write errors were counted (scenario %d: %s)",
+					lost, lostBytes, strings.Join(miss, ","), bound, st.WriteErrors, scen, strings.Join(desc, " ; "))
 			}
 		} else if scen == 4 && st.WriteErrors == 0 && lost > 0 {
 			// the kernel accepted a write on the reset connection (not observed on Linux loopback): TCP loss, outside the property
@@ -1187,6 +1234,9 @@ func runL2(seed uint64, idx int, o *out, tier string) {
 		}
 		if st.WriteErrors > 0 {
 			o.NT(fmt.Sprintf("e2e-write-error-inside-batch-scen%d", scen))
+		}
+		if scen == 6 {
+			o.NT("e2e-stalled-upstream")
 		}
 	case 2:
 		// after the resets: exactness/order of whatever arrived, and the sender recovers: a later packet gets through
